@@ -24,10 +24,29 @@ def main():
     run.build_and_audit(["TdVerif.Props.C11"])
     drv = run.driver()
     import c11_hist
+    import json
+    import shutil
+    from common import BUILD, VERIF
+    scratch = BUILD / "tmp" / f"c11r_{run.seed}_{run.tier}"
+    shutil.rmtree(scratch, ignore_errors=True)
+    scratch.mkdir(parents=True, exist_ok=True)
+    try:
+        if run.replay:
+            # ./check C11 --replay <file>: re-run the recorded failing histories
+            rep = json.loads(open(run.replay).read())
+            n = c11_hist.replay_histories(run, drv, [f.get("case") for f in rep.get("failures", [])] + [x.get("case") for v in rep.get("broken_correspondence", {}).values() for x in v], scratch)
+            run.notes.append(f"replayed {n} recorded histories from {run.replay}")
+            run.finish("proof")
+        corpus = [json.loads(p.read_text()) for p in sorted((VERIF / "corpus" / "C11").glob("*.json"))]
+        run.count("corpus.cases", len(corpus))
+        c11_hist.replay_histories(run, drv, [c["case"] for c in corpus], scratch)
+    finally:
+        shutil.rmtree(scratch, ignore_errors=True)
     c11_hist.run_layout(run, drv)
     c11_hist.run_histories(run, drv)
     import c11_trips
     c11_trips.run_trips(run)
+    c11_trips.run_pytree(run, drv)
     import os
     if os.environ.get("VERIF_DEBUG"):
         from collections import Counter
